@@ -10,8 +10,16 @@ Every monitor is a relation between two executions of the same JSON case
   after-servicer after a PythiaServicer was constructed in this process (it flips
                 jax_enable_x64 process-wide) — executed last in every shard
 
+  reused-factory (benchmarks described by factories) one ExperimenterDesignerBenchmark-
+                StateFactory + one BenchmarkRunner serve several seeded runs in a row;
+                every run with the case's seed must equal the run of brand-new objects
+
 plus seed sensitivity (different seeds => different streams on >= 2**10 points)
 and seeded BenchmarkRunner executions (trial sequence incl. noisy metrics).
+"phase" cases take Eagle through its later phases (pool full -> fly removed -> pool
+re-populated from the initial quasi-random designer) with a short history, mostly
+restored from study metadata at every request; the phase reached is observed from
+the public parent_fly_id suggestion metadata and counted.
 GP designers (15-40 s per run) live in dedicated tasks at the head of a shard.
 """
 import json
@@ -34,9 +42,17 @@ RULE = ('case = (designer in {random, quasi-random, shuffled grid, eagle, NSGA-I
         '{0, 1, 16-bit, 31-bit}, 2-5 step script with scripted partial completion and '
         'infeasible trials) or a seeded BenchmarkRunner execution (18 BBOB functions x 9 '
         'noise types x routines of GenerateAndEvaluate / GenerateSuggestions / '
-        'FillActiveTrials / EvaluateActiveTrials). Each case is executed 3-6 times under the '
-        'variants above; distinct = hash of (type, designer, wrapper, space shape, batch '
-        'profile, seed class); non-trivial when the run made >= 2 suggestions.')
+        'FillActiveTrials / EvaluateActiveTrials), the experimenter either built directly or '
+        'described by SingleObjectiveExperimenterFactory(BBOBExperimenterFactory) with '
+        'shift / normalisation / discretisation / categorisation / seeded permutation / seeded '
+        'noise and run through one long-lived ExperimenterDesignerBenchmarkStateFactory + '
+        'BenchmarkRunner for 3-4 consecutive seeded runs (same seed again, after another '
+        'seed); or an Eagle phase case (FireflyAlgorithmConfig with pool of 3-8 or default, '
+        'penalize factor 0.3-0.5, 12-32 requests of 1-9 suggestions, mostly restored from '
+        'study metadata per request) whose history demonstrably re-populates the pool. Each '
+        'case is executed 3-6 times under the variants above; distinct = hash of (type, '
+        'designer, wrapper, space shape, batch profile, seed class, experimenter '
+        'transformations); non-trivial when the run made >= 2 suggestions.')
 ASSUMPTIONS = [
     'suggestions are compared by parameter values, exactly (repr of float64)',
     'GP designers are compared exactly within one process configuration; a cross-process GP '
@@ -45,11 +61,17 @@ ASSUMPTIONS = [
     'seed sensitivity is only flagged when three pairwise different seeds give one stream',
     'suggestion metadata (e.g. GP time_spent) is not part of the compared stream',
     'NSGA-II is not given infeasible trials without metrics (it documents a refusal)',
+    'reuse across runs is only demanded of ExperimenterDesignerBenchmarkStateFactory (it is '
+    'given an experimenter *factory*); a DesignerBenchmarkStateFactory holding one '
+    'experimenter object is always built anew per run',
+    'the Eagle phase reached by a history is read from the eagle/parent_fly_id metadata of '
+    'the suggestions (a new fly id after flies were moved = pool re-populated)',
 ]
 REQUIRED_COUNTERS = ['pairs_compared', 'seed_sensitivity_pairs', 'pairs:repeat',
                      'pairs:perturbed', 'pairs:interleaved', 'pairs:fresh-process',
                      'pairs:after-servicer', 'bench_pairs_compared', 'gp_pairs_compared',
-                     'gp_fresh_process_pairs', 'seed0_pairs', 'x64_flip_observed']
+                     'gp_fresh_process_pairs', 'seed0_pairs', 'x64_flip_observed',
+                     'bench_reused_factory_pairs_noisy', 'eagle_refill_restored_pairs']
 MIN_DISTINCT = {'quick': 60, 'thorough': 1000}
 
 N_GP_TASKS = {'quick': 4, 'thorough': 48}
@@ -134,13 +156,91 @@ def gen_bench_case(rng, kind):
           'seed': _seed(rng), 'routine': routine, 'repeats': rng.choice([1, 2, 3])}
 
 
+def gen_bench_factory_case(rng, kind=None):
+  """A benchmark described by factories (experimenter factory + designer factory).
+
+  SingleObjectiveExperimenterFactory over a BBOB factory with its seeded
+  transformations; the state factory and the runner are long-lived objects that
+  serve several seeded runs (the usual `for seed in ...: state = factory(seed)` loop).
+  """
+  if kind is None:
+    kind = rng.choice(['random', 'qr', 'eagle', 'eagle', 'nsga2', 'sgrid', 'cmaes'])
+  case = gen_bench_case(rng, kind)
+  dim = case['dim']
+  xf = {'shift': None, 'normalize': 0, 'discrete': {}, 'categorical': {},
+        'permute_seed': None}
+  if rng.random() < 0.4:
+    xf['shift'] = [round(rng.uniform(-2.0, 2.0), 3) for _ in range(dim)]
+  if rng.random() < 0.2:
+    xf['normalize'] = rng.choice([3, 8])
+  if kind != 'cmaes':
+    idx = list(range(dim))
+    rng.shuffle(idx)
+    if rng.random() < 0.35:
+      xf['discrete'] = {str(idx.pop()): rng.randint(2, 6)}
+    if rng.random() < 0.35:
+      xf['categorical'] = {str(idx.pop()): rng.randint(2, 5)}
+      if rng.random() < 0.6:
+        xf['permute_seed'] = rng.choice([0, 1, rng.getrandbits(16)])
+  # the noise generator is the state that a run leaves behind in its experimenter
+  case['noise'] = rng.choice(X.NOISES[1:] * 2 + ['NO_NOISE', None])
+  if case['infeasible'] is not None and rng.random() < 0.5:
+    case['infeasible'] = None
+  case.update(via='exptr_factory', xf=xf)
+  other = _seed(rng)
+  while other == case['seed']:
+    other = rng.getrandbits(16)
+  # same seed again right away, after a run with another seed, and once more
+  case['reuse_seeds'] = rng.choice([[case['seed'], other, case['seed']],
+                                    [other, case['seed'], case['seed']],
+                                    [case['seed'], case['seed'], other, case['seed']]])
+  return case
+
+
+def gen_phase_case(rng, kind='eagle'):
+  """A history that takes the designer through its later phases.
+
+  Eagle: a small pool (public config) fills up within a few trials, flies whose
+  children do not improve are removed and the pool is re-populated from the
+  initial quasi-random designer -- mostly hosted the way the service does it (new
+  policy per request, designer rebuilt without its seed and restored from the
+  study metadata), where every phase has to come back from the persisted state.
+  """
+  assert kind == 'eagle'
+  pd = L.gen_problem(rng, kind)
+  config = {'penalize_factor': rng.choice([0.5, 0.5, 0.3]),
+            'perturbation_lower_bound': rng.choice([0.05, 0.05, 0.02])}
+  pool = rng.choice([3, 4, 5, 6, 8, None])
+  if pool is not None:
+    config['max_pool_size'] = pool
+  if rng.random() < 0.25:
+    config['explore_rate'] = 1.5
+  if rng.random() < 0.2:
+    config['infeasible_force_factor'] = 0.1
+  n = rng.randint(12, 20) if pool is not None else rng.randint(24, 32)
+  script = L.gen_script(rng, 2, kind)
+  script['batches'] = [rng.randint(1, 8) if pool is not None else rng.randint(3, 9)
+                       for _ in range(n)]
+  script['p_infeasible'] = rng.choice([0.0, 0.0, 0.0, 0.1])
+  wrap = rng.choice(['stateless_policy', 'stateless_policy', 'stateless_policy', 'direct',
+                     'inram_policy'])
+  return {'type': 'stream', 'designer': {'kind': kind, 'cfg': {'config': config}},
+          'problem': pd, 'seed': _seed(rng), 'script': script, 'wrap': wrap}
+
+
 def abstraction(case):
   ds = case['designer']
   s = case['seed']
   seed_class = 0 if s == 0 else (1 if s == 1 else (2 if s < 2 ** 16 else 3))
   if case['type'] == 'bench':
-    return ['bench', ds['kind'], case['fn'], case['noise'], case['dim'], case['routine'],
-            case['repeats'], seed_class]
+    a = ['bench', ds['kind'], case['fn'], case['noise'], case['dim'], case['routine'],
+         case['repeats'], seed_class]
+    if case.get('via'):
+      xf = case['xf']
+      a += [case['via'], xf['shift'] is not None, bool(xf['normalize']),
+            sorted(xf['discrete'].values()), sorted(xf['categorical'].values()),
+            xf['permute_seed'] is not None, len(case['reuse_seeds'])]
+    return a
   sc = case['script']
   return ['stream', ds['kind'], L.dumps(ds.get('cfg', {})), case.get('wrap'),
           gen.space_shape(case['problem']['space']), len(case['problem']['metrics']),
@@ -220,7 +320,7 @@ def child_finish(handle, timeout):
 # ---------------------------------------------------------------------------
 # monitors
 # ---------------------------------------------------------------------------
-def compare(ctx, case, variant, base, other, extra=None):
+def compare(ctx, case, variant, base, other, extra=None, mech_suffix=''):
   kind = case['designer']['kind']
   ctx.count('pairs_compared')
   ctx.count(f'pairs:{variant}')
@@ -239,9 +339,11 @@ def compare(ctx, case, variant, base, other, extra=None):
   if variant == 'after-servicer' and kind in X.JAX_KINDS:
     mech = f'seeded-stream-changes-after-PythiaServicer-flips-jax_enable_x64:{kind}'
   else:
-    mech = f'{prefix}not-reproducible:{kind}:{variant}'
+    mech = f'{prefix}not-reproducible:{kind}:{variant}{mech_suffix}'
     if case.get('wrap') == 'inram_policy':
       mech += ':inram-policy'
+    elif case.get('wrap') == 'stateless_policy':
+      mech += ':restored-per-request'
   ctx.violation(mech, f'{kind} (seed {case["seed"]}): the {variant} execution produced a '
                 'different ' + ('trial sequence' if prefix else 'suggestion stream'),
                 dict(case, variant=variant), w)
@@ -276,13 +378,22 @@ def check_case(ctx, case, index, state):
                     {'first': base, 'second': again if isinstance(again, tuple) else 'ok'})
     return None
   ctx.case(abstraction(case), size_of(case, base) >= 2)
+  # which phases did the base run go through (observed, not assumed)
+  obs = dict(X.last_obs) if case['type'] == 'stream' else {}
+  refilled = obs.get('kind') == 'eagle' and obs.get('refill_at') is not None
+  if refilled:
+    ctx.count('eagle_refill_histories')
   rng = ctx.rng(index, 'variants')
   other = safe_execute(ctx, case)
   compare(ctx, case, 'repeat', base, other)
   k = rng.getrandbits(24)
   shift = -rng.choice([86400.0 * 365, 12345.678, 3.1e8]) - k
   other = safe_execute(ctx, case, shift=shift, perturb=k)
-  compare(ctx, case, 'perturbed', base, other, {'perturb': k, 'clock_shift': shift})
+  if refilled and case.get('wrap') == 'stateless_policy':
+    # a restored designer re-populating its pool at another wall-clock time
+    ctx.count('eagle_refill_restored_pairs')
+  compare(ctx, case, 'perturbed', base, other,
+          {'perturb': k, 'clock_shift': shift, 'phases': obs or None})
   prev = state.get('prev')
   if prev is not None:
     pcase, pbase = prev
@@ -292,6 +403,45 @@ def check_case(ctx, case, index, state):
   state['prev'] = (case, base)
   state['stored'].append((case, base, cost))
   return base
+
+
+def reuse_suffix(case, seeds, j, base, got):
+  """Names the anomaly of run j of a reused factory from the shape of the witness."""
+  when = 'first-run' if j == 0 else (
+      'same-seed-again' if all(s == case['seed'] for s in seeds[:j]) else 'after-other-seed')
+  what = 'raises' if not isinstance(got, list) else 'trial-count'
+  if isinstance(got, list) and isinstance(base, list) and len(got) == len(base):
+    same_params = all(a[:2] == b[:2] for a, b in zip(base, got))
+    what = 'measurements-differ' if same_params else 'suggestions-differ'
+  return f':{when}:{what}'
+
+
+def check_reused_factory(ctx, case, base):
+  """Runs of one long-lived state factory + runner vs the run of brand-new ones.
+
+  `base` is the trial sequence of the case executed with everything built anew;
+  every run of the reused objects with the case's seed must reproduce it, no
+  matter which seeded runs the same objects served before.
+  """
+  seeds = case['reuse_seeds']
+  try:
+    runs = X.execute_reused(case, seeds)
+  except Exception as e:  # pylint: disable=broad-except
+    ctx.violation(f'bench-not-reproducible:{case["designer"]["kind"]}:reused-factory:raises',
+                  f'a reused state factory raised {type(e).__name__}: {str(e)[:200]} where a '
+                  'new one ran', dict(case, variant='reused-factory'))
+    return
+  for j, (s, got) in enumerate(zip(seeds, runs)):
+    if s != case['seed']:
+      continue
+    ctx.count('bench_reused_factory_pairs')
+    if case['noise'] not in (None, 'NO_NOISE'):
+      ctx.count('bench_reused_factory_pairs_noisy')
+    ok = compare(ctx, case, 'reused-factory', base, got,
+                 {'reuse_seeds': seeds, 'run_index': j},
+                 mech_suffix=reuse_suffix(case, seeds, j, base, got))
+    if not ok:
+      return
 
 
 def check_seed_sensitivity(ctx, kind, index):
@@ -415,13 +565,30 @@ def gp_task(ctx, t):
 
 
 # ---------------------------------------------------------------------------
-SCHEDULE = (
+_OLD_SLOTS = (
     [('stream', k) for k in X.STREAM_KINDS] * 2
     + [('bench', k) for k in ('random', 'qr', 'eagle', 'nsga2', 'sgrid')]
     + [('sens', k) for k in X.STREAM_KINDS + X.GP_KINDS]
     + [('gpseed', k) for k in X.GP_KINDS]
     + [('stream', 'eagle'), ('bench', 'cmaes')]
-)   # 29 slots (prime)
+)   # 29 slots
+
+
+def _schedule():
+  # the phase / reused-factory slots recur every 4-5 slots so that every shard meets
+  # both among its first cases whatever the number of shards
+  out, old = [], list(_OLD_SLOTS)
+  for j in range(8):
+    out.append(('phase', 'eagle') if j % 2 == 0 else ('benchf', None))
+    n = 4 if j < 5 else 3
+    out.extend(old[:n])
+    old = old[n:]
+  assert not old
+  return out
+
+
+SCHEDULE = _schedule()    # 37 slots (prime)
+assert len(SCHEDULE) == 37
 
 
 def gen_case(rng, slot):
@@ -430,6 +597,10 @@ def gen_case(rng, slot):
     return gen_stream_case(rng, kind)
   if typ == 'bench':
     return gen_bench_case(rng, kind)
+  if typ == 'benchf':
+    return gen_bench_factory_case(rng, kind)
+  if typ == 'phase':
+    return gen_phase_case(rng, kind)
   if typ == 'gpseed':
     return gen_gp_seed_stage_case(rng, kind)
   raise ValueError(typ)
@@ -494,7 +665,9 @@ def run_shard(ctx):
     case['index'] = i
     if i < 2 * ctx.nshards:
       ctx.sample({k: case[k] for k in case if k not in ('problem',)})
-    check_case(ctx, case, i, state)
+    base = check_case(ctx, case, i, state)
+    if base is not None and case.get('reuse_seeds'):
+      check_reused_factory(ctx, case, base)
   stored = state['stored']
   by_index = {c['index']: (c, b) for c, b, _ in stored}
   # ---- phase 2: collect the fresh process ----------------------------------------------
@@ -537,6 +710,9 @@ def replay(ctx, case):
       ctx.violation(f'seed-ignored:{case["designer"]["kind"]}', 'replayed', case)
     return
   base = safe_execute(ctx, case)
+  if variant == 'reused-factory':
+    check_reused_factory(ctx, case, base)
+    return
   if variant in ('repeat', 'interleaved'):
     other = safe_execute(ctx, case)
   elif variant == 'perturbed':
